@@ -46,3 +46,59 @@ package api
 //@   props C08 C09 C17
 //@   modifies nothing
 //@   ensures result == Signer(c)
+
+// ---- state tree attribution and transaction (overlay) contexts ----
+//
+// GTreeW[t] counts the successful writes (Insert/Remove/RemoveExisting) made
+// THROUGH tree object t (bumped by the state-tree model and by the trusted
+// state accessor contracts). A transaction context writes to its own overlay
+// tree; the parent's tree is written only by Commit. "A failed handler leaves
+// the state untouched" is then: GTreeW of the tree the handler was entered
+// with is unchanged on every non-fatal error return.
+
+//@ import "github.com/oasisprotocol/oasis-core/go/storage/mkvs"
+//@ ghost var GTreeW map[mkvs.KeyValueTree]int
+//@ ghost var GCommits int
+//@ ghost func TreeOf(c *Context) mkvs.KeyValueTree { return c.state }
+//@ ghost func InTx(c *Context) bool { return c.isTransaction }
+//@ ghost func OnlyTree(t mkvs.KeyValueTree) bool { return forall u mkvs.KeyValueTree :: u != t ==> GTreeW[u] == old(GTreeW[u]) }
+
+//@ func Context.State
+//@   props C08
+//@   modifies nothing
+//@   ensures result == TreeOf(c)
+
+//@ func Context.NewChild
+//@   props C08
+//@   requires c != nil
+//@   modifies nothing
+//@   ensures fresh(result) && result.parent == c && TreeOf(result) == TreeOf(c) && !InTx(result)
+//@   ensures result.mode == c.mode && result.callerAddress == c.callerAddress && result.txSigner == c.txSigner && result.gasAccountant == c.gasAccountant
+
+//@ func Context.NewTransaction
+//@   props C08
+//@   requires c != nil
+//@   modifies nothing
+//@   ensures fresh(result) && result.parent == c && InTx(result) && fresh(TreeOf(result))
+//@   ensures result.mode == c.mode && result.callerAddress == c.callerAddress && result.txSigner == c.txSigner && result.gasAccountant == c.gasAccountant
+//@   note the overlay tree is a new object: writes through it are not writes through the parent's tree
+
+//@ func Context.Commit
+//@   trusted
+//@   requires c != nil
+//@   modifies GTreeW, GCommits, kvState(), c.events, c.eventsProvable, c.parent.events, c.parent.eventsProvable
+//@   ensures forall t mkvs.KeyValueTree :: t != old(TreeOf(c.parent)) ==> GTreeW[t] == old(GTreeW[t])
+//@   ensures result == old(c.parent)
+//@   ensures GCommits == old(GCommits) + 1
+//@   note flushes the overlay into the parent's tree (the only way a transaction context's writes reach it); panics if the overlay commit fails
+
+//@ func Context.Close
+//@   trusted
+//@   requires c != nil
+//@   modifies *c, c.parent.events, c.parent.eventsProvable
+//@   note discards an uncommitted overlay; writes no tree
+
+//@ func Context.CallerAddress
+//@   props C08
+//@   modifies nothing
+//@   ensures result == c.callerAddress
